@@ -16,7 +16,7 @@ func init() {
 		Level:     "other",
 		Technique: "who-may-write tables with guard facts and stored-value shapes for the partition offsets; edge-dominance facts on both fetch batch walks; dominance / must-pass rules on the duplicate window; three-valued path exploration of handleProduce's per-batch decision; guard whitelists on the fetch-session bookkeeping",
 		Explanation: "(1) partData.highWatermark is written only by pushBatch (`+= int64(b.NumRecords)`, after the single store b.FirstOffset = pd.highWatermark that dominates the segment write and the increment; the returned offset is b.FirstOffset) and by the two loaders; " +
-			"partData.lastStableOffset only by pushBatch (same increment, under the fact len(pd.uncommittedPIDs)==0, after the transactional registration), recalculateLSO (= highWatermark when no transaction is open; otherwise a local that starts at highWatermark and is only lowered under off < lso over uncommittedPIDs) and the loaders; " +
+			"partData.lastStableOffset only by pushBatch (same increment, under the fact len(pd.uncommittedPIDs)==0, after the transactional registration), recalculateLSO (= highWatermark when no transaction is open; otherwise a local that starts at highWatermark and is only lowered under off < lso over uncommittedPIDs; the loop visits every entry - no break/return/goto - and every path through its body either lowers the candidate to the entry or carries the fact off >= lso) and the loaders; " +
 			"every other mutation of uncommittedPIDs (delete / index store) is followed on all paths by recalculateLSO; abortedTxns entries are appended only under !commit && had-uncommitted with firstOffset from uncommittedPIDs and lastOffset from pushBatch; " +
 			"partData.logStartOffset only by delete-records (lo <= to <= hwm facts), compaction, retention (monotone) - each followed by the trim/rebuild - and the loaders. " +
 			"(2) in handleFetch every use of a batch (batchMeta.nbytes, readBatchRaw) in both walks carries the fact !(readCommitted && m.firstOffset >= pd.lastStableOffset) with readCommitted := IsolationLevel == 1; the response reports the three partData offsets in the matching fields; AbortedTransactions entries are built from pd.abortedTxns (producerID, firstOffset) under readCommitted. " +
@@ -523,6 +523,13 @@ func (e *c32env) recalcStore(st StoreSite, cons string, facts []Fact) {
 				nInit++
 				continue
 			}
+			if cl, ok := unparen(rhs).(*ast.CallExpr); ok && len(cl.Args) == 2 && exprStr(cl.Fun) == "min" {
+				a0, a1 := c32identObj(info, cl.Args[0]), c32identObj(info, cl.Args[1])
+				if (a0 == o && a1 != nil && e.rangesOverUncommitted(f, a1)) || (a1 == o && a0 != nil && e.rangesOverUncommitted(f, a0)) {
+					nLower++
+					continue
+				}
+			}
 			ro := c32identObj(info, rhs)
 			g := f.Graph()
 			loc, _ := g.LocOf(as)
@@ -542,6 +549,98 @@ func (e *c32env) recalcStore(st StoreSite, cons string, facts []Fact) {
 		good, why = false, "the candidate is never lowered to an open transaction's first offset"
 	}
 	c.Check(good, rule, cons, st.Node.Pos(), m, "min(highWatermark, first offsets of open transactions)", "recalculateLSO: "+why+": the LSO would not stop at the first offset of an open transaction")
+	e.recalcCoversEveryTxn(f, o, cons)
+}
+
+// recalcCoversEveryTxn: the minimum loop of recalculateLSO must leave every
+// iteration with lso <= off for the entry it visited: on every path through
+// the body of `for _, off := range pd.uncommittedPIDs` that reaches the next
+// iteration, either an edge asserts off >= lso or `lso = off` (or
+// lso = min(lso, off)) is executed; the body never leaves the loop early.
+func (e *c32env) recalcCoversEveryTxn(f *Func, lso types.Object, cons string) {
+	c, m := e.c, e.m
+	rule := "lso-min-covers-every-open-txn"
+	info := f.Info()
+	g := f.Graph()
+	var rs *ast.RangeStmt
+	ast.Inspect(f.Decl.Body, func(x ast.Node) bool {
+		if r, ok := x.(*ast.RangeStmt); ok && rs == nil && c32isField(info, r.X, e.uncom) {
+			rs = r
+		}
+		return rs == nil
+	})
+	if rs == nil || rs.Value == nil {
+		c.Fail(rule, f.Key+"#loop", f.Pos(), m, "recalculateLSO has no `for _, off := range pd.uncommittedPIDs` loop over the first offsets of the open transactions")
+		return
+	}
+	off := c32identObj(info, rs.Value)
+	isOff := func(x ast.Expr) bool { return off != nil && c32identObj(info, x) == off }
+	isLso := func(x ast.Expr) bool { return c32identObj(info, x) == lso }
+	// no early exit from the loop
+	var early []string
+	ast.Inspect(rs.Body, func(x ast.Node) bool {
+		switch s := x.(type) {
+		case *ast.FuncLit:
+			return false
+		case *ast.ReturnStmt:
+			early = append(early, nodeStr(s))
+		case *ast.BranchStmt:
+			if s.Tok == token.BREAK || s.Tok == token.GOTO {
+				early = append(early, nodeStr(s))
+			}
+		}
+		return true
+	})
+	c.Check(len(early) == 0, rule, f.Key+"#no-early-exit", rs.Pos(), m, "every entry is visited", "the loop over the open transactions is left early ("+strings.Join(early, ", ")+"): map iteration order is random, the remaining open transactions are not considered and the LSO can lie past their first offset")
+	lowers := func(n ast.Node) bool {
+		as, ok := n.(*ast.AssignStmt)
+		if !ok || len(as.Lhs) != 1 || len(as.Rhs) != 1 || as.Tok != token.ASSIGN || !isLso(as.Lhs[0]) {
+			return false
+		}
+		if isOff(as.Rhs[0]) {
+			return true
+		}
+		if cl, ok := unparen(as.Rhs[0]).(*ast.CallExpr); ok && len(cl.Args) == 2 {
+			if id, ok := cl.Fun.(*ast.Ident); ok && id.Name == "min" {
+				if _, isB := info.Uses[id].(*types.Builtin); isB {
+					return (isOff(cl.Args[0]) && isLso(cl.Args[1])) || (isOff(cl.Args[1]) && isLso(cl.Args[0]))
+				}
+			}
+		}
+		return false
+	}
+	var body, head, done *cfg.Block
+	for _, b := range g.C.Blocks {
+		if b.Stmt != ast.Stmt(rs) {
+			continue
+		}
+		switch b.Kind {
+		case cfg.KindRangeBody:
+			body = b
+		case cfg.KindRangeLoop:
+			head = b
+		case cfg.KindRangeDone:
+			done = b
+		}
+	}
+	if body == nil || head == nil {
+		c.Undecided(rule, f.Key+"#every-entry-bounds-lso", rs.Pos(), m, "range loop not found in the CFG")
+		return
+	}
+	p, found := g.FindPath(Loc{B: int(body.Index), I: -1}, SearchOpts{
+		Stop: lowers,
+		EdgeOK: func(from *cfg.Block, k int, to *cfg.Block) bool {
+			cond, tag, ok := g.condOf(from)
+			if !ok || tag != nil {
+				return true
+			}
+			// an edge that establishes off >= lso needs no assignment
+			return !c32factCmp(decompose(cond, k == 0, nil), token.GEQ, isOff, isLso)
+		},
+		GoalBlock: func(b *cfg.Block) bool { return b == head || b == done },
+		GoalExit:  func(ExitKind, ast.Node) bool { return true },
+	})
+	c.Check(!found, rule, f.Key+"#every-entry-bounds-lso", rs.Pos(), m, "each iteration ends with lso <= off", "an open transaction's first offset `"+exprStr(rs.Value)+"` can be passed over without lowering the candidate to it and without the fact "+exprStr(rs.Value)+" >= lso ("+pathStr(p)+"): that transaction no longer holds the last stable offset back, the LSO moves past its first offset and read_committed fetches return its still-undecided records")
 }
 
 // rangesOverUncommitted: obj is the value variable of `for _, obj := range X.uncommittedPIDs`.
